@@ -791,7 +791,8 @@ fn parse_inner_type(tokens: &mut Tokens) -> Result<ValueType, Error>
 			}
 			Some(Token::NakedDecimal(x)) =>
 			{
-				let length = *x as usize;
+				// Lengths that do not fit are rejected as part of the type.
+				let length = usize::try_from(*x).unwrap_or(usize::MAX);
 				tokens.pop_front();
 				consume(Token::BracketRight, tokens)?;
 				let element_type = parse_inner_type(tokens)?;
